@@ -1343,3 +1343,87 @@ def rule_in_all_flags_polarity(ctx):
                 r.check(truth == want, "%s|%s" % (b.id, a), "flag-polarity:%s-under-%s" % (a, truth), "an argument is %s where its flag is %s" % ({"member": "kept", "require": "required", "forbid": "forbidden"}[a], str(want).lower()), "an argument is %s where its `in every preferred extension` flag is %s" % ({"member": "kept as a member", "require": "required", "forbid": "forbidden"}[a], str(truth).lower()), s.loc())
     if n == 0:
         r.ok("ideal", "NOT decided: no flag-governed selection found in the ideal solver", None)
+
+
+def rule_single_member_read_guarded(ctx):
+    """C07: a query method that looks at one member of its list only"""
+    prog = ctx.prog
+    from ..prov import prov, show
+    from .grounded import inherited_conditions, _cond_trees
+
+    r = ctx.rule(
+        "single-member-read-is-guarded",
+        "an acceptance method (static or dynamic solver) that reads its argument list at a constant position (`args[0]`, `first()`) instead of "
+        "going through it runs that read only under a test that the list has no other member (`len > 1` diverges before it, or `len == 1` "
+        "governs it): a longer list is refused, not answered as its first member",
+    )
+    n = 0
+    for tr in (KIND_TRAIT["credulous"], KIND_TRAIT["skeptical"]):
+        for imp in prog.impls_of_trait(tr):
+            for m in imp["methods"]:
+                fn = prog.lib(m["path"])
+                if fn is None:
+                    continue
+                lp = list_params_of(fn)
+                if not lp:
+                    continue
+                for y in prog.with_closures(fn):
+                    reads = []
+                    for s in y.calls():
+                        d = callee_decl(callee_of(s))
+                        if d not in ("core::ops::index::Index::index",) and not re.search(r"slice::.*(first|get|last)$", d):
+                            continue
+                        recv = prov(prog, y, s.node["args"][0])
+                        if not any(e[0] == "param" and e[1] == fn.path and e[2] in lp and not e[3] for e in recv):
+                            continue
+                        if d.endswith("Index::index") or d.endswith("get"):
+                            idx = prov(prog, y, s.node["args"][1])
+                            if not all(e[0] == "const" and isinstance(e[1], int) for e in idx):
+                                continue
+                        reads.append(s)
+                    # `args[0]` on a slice is a place projection, not a call
+                    if y is fn:
+                        for s in y.sites():
+                            nd = s.node
+                            if s.si is None or nd["k"] != "assign":
+                                continue
+                            pls = [nd["rv"].get("place")] if nd["rv"]["k"] == "ref" else [op_place(o) for o in nd["rv"].get("ops", [])]
+                            for pl in pls:
+                                if pl is None or pl["l"] not in lp:
+                                    continue
+                                for pe in pl["p"]:
+                                    if isinstance(pe, dict) and "cidx" in pe:
+                                        reads.append(s)
+                                    elif isinstance(pe, dict) and "idx" in pe and all(e[0] == "const" and isinstance(e[1], int) for e in prov(prog, y, {"l": pe["idx"], "p": []})):
+                                        reads.append(s)
+                    for s in reads:
+                        n += 1
+                        anchor = "%s|member-read" % fn.id
+                        conds = _cond_trees(prog, inherited_conditions(prog, y, s.bb))
+                        ok = False
+                        seen = []
+                        for e, t in conds:
+                            if e[0] != "op" or len(e[2]) != 2:
+                                continue
+                            a, b2 = e[2]
+                            is_len = lambda x: x[0] == "call" and re.search(r"::len$", x[1]) and x[2] and x[2][0][0] == "param" and x[2][0][1] == fn.path and x[2][0][2] in lp  # noqa: E731
+                            if not (is_len(a) and b2[0] == "const"):
+                                continue
+                            k = b2[1]
+                            seen.append("%s %s is %s" % (e[1], k, t))
+                            if (e[1] == "Gt" and k == 1 and t is False) or (e[1] == "Ge" and k == 2 and t is False) or (e[1] == "Le" and k == 1 and t is True) or (e[1] == "Lt" and k == 2 and t is True) or (e[1] == "Eq" and k == 1 and t is True) or (e[1] == "Ne" and k == 1 and t is False):
+                                ok = True
+                        # the method may also go through the whole list elsewhere (then the constant read is a shortcut, not the answer)
+                        def _is_list(y2, a2):
+                            q = op_place(a2)
+                            return q is not None and not q["p"] and re.match(r"^&\[&", y2.local_ty(q["l"])) and any(e[0] == "param" and e[1] == fn.path and e[2] in lp for e in prov(prog, y2, a2))
+
+                        iterates = any(callee_decl(callee_of(s2)) in ("core::slice::iter", "core::iter::traits::collect::IntoIterator::into_iter", "core::slice::<impl [T]>::iter") and _is_list(y2, s2.node["args"][0]) for y2 in prog.with_closures(fn) for s2 in y2.calls() if s2.node.get("args"))
+                        passes_on = any(_is_list(y2, a2) for y2 in prog.with_closures(fn) for s2 in y2.calls() if callee_of(s2) and callee_of(s2).get("crate") == "crustabri" for a2 in s2.node["args"])
+                        if ok:
+                            r.ok(anchor, "the single-member read runs only when the list has one member", s.loc())
+                        elif iterates or passes_on:
+                            r.ok(anchor, "NOT decided: the method also goes through (or hands on) the whole list", s.loc())
+                        else:
+                            r.violation(anchor, "unguarded-single-member-read", "the method answers for the member at a constant position of its list and nothing restricts the list to one member (%s): a list of several arguments is answered as that member alone, not as the disjunction" % (", ".join(seen) or "no test of the length"), s.loc())
+    r.floor(n, 4, "constant-position reads of a query list")
